@@ -223,7 +223,7 @@ func genConv(t *rapid.T) ConvCase {
 	}
 	if rapid.IntRange(0, 4).Draw(t, "longTerms") == 0 {
 		// long tokens with a long common prefix, around the lengths where a length byte / fixed buffer would overflow
-		n := rapid.SampledFrom([]int{63, 64, 65, 127, 128, 254, 255, 256, 257, 511, 512, 1000, 4096}).Draw(t, "termPrefixLen")
+		n := rapid.SampledFrom([]int{63, 64, 65, 127, 128, 254, 255, 256, 257, 511, 512, 1000, 4096, 32765, 32766, 32767, 32768, 32769, 65535, 65536, 70000}).Draw(t, "termPrefixLen") // (beyond the longest key the storage engine takes: the codec itself has no limit)
 		prefix := strings.Repeat(rapid.SampledFrom([]string{"a", "s", "é", "\x00"}).Draw(t, "termPrefixChar"), n)
 		c.Term = prefix[:n] + rapid.StringMatching(`[a-c]{0,2}`).Draw(t, "termTailA")
 		c.Term2 = prefix[:n] + rapid.StringMatching(`[a-c]{0,3}`).Draw(t, "termTailB")
